@@ -92,6 +92,8 @@ def _seq_strategy(tier):
         st.tuples(st.just('store_high'), st.sampled_from(HIGH), st.booleans()),
         st.tuples(st.just('store_high'), st.integers(1, 12), st.booleans()),
         st.tuples(st.just('store_issued'), st.booleans()),
+        st.tuples(st.just('update'), st.integers(0, 9)),
+        st.tuples(st.just('update'), st.integers(0, 9)),
         st.tuples(st.just('restore_high'), st.sampled_from(HIGH)),
         st.tuples(st.just('copy_in'), st.lists(st.sampled_from(HIGH) | st.integers(1, 12), min_size=1, max_size=3)),
         st.tuples(st.just('reopen')),
@@ -273,6 +275,12 @@ def execute(case):
                     cur.store(oid, serial, rec(), '', t)
                     cur.tpc_abort(t)
                     out.label('store-aborted')
+            elif k == 'update':
+                # a new revision of an existing object (gives a later pack something to free)
+                pres = sorted(present() - {Z64})       # (not the database root)
+                if pres and not isinstance(cur, DemoStorage):
+                    commit_records(cur, [(pres[op[1] % len(pres)], rec())])
+                    out.label('update')
             elif k == 'store_issued':
                 # the normal life of an issued id: it gets stored (or not)
                 if issued:
